@@ -118,7 +118,8 @@ Definition ids (h : heap) : list nat := map fst (h_live h).
 Record heap_ok (h : heap) : Prop := {
   hk_bad : h_bad h = 0;
   hk_cnt : h_allocs h - h_frees h = zlen (h_live h);
-  hk_lt : forall b z, In (b, z) (h_live h) -> (b < h_next h)%nat
+  hk_lt : forall b z, In (b, z) (h_live h) -> (b < h_next h)%nat;
+  hk_nd : NoDup (ids h)
 }.
 
 Lemma hmem_In b l z : In (b, z) l -> hmem b l = true.
@@ -149,20 +150,45 @@ Proof.
   destruct (Nat.eqb_spec b x); cbn [orb length]; [lia|]. intros H. specialize (IH H). lia.
 Qed.
 
+Lemma hrem_ids_In b l x : In x (map fst (hrem b l)) -> In x (map fst l).
+Proof.
+  rewrite !in_map_iff. intros [[y z] [E A]]. exists (y, z). split; [exact E|exact (hrem_In_inv _ _ _ _ A)].
+Qed.
+
+Lemma hrem_nodup b l : NoDup (map fst l) -> NoDup (map fst (hrem b l)).
+Proof.
+  induction l as [|[x y] l IH]; cbn [hrem map fst]; [auto|]. intros H. inversion H as [|? ? N D]; subst.
+  destruct (Nat.eqb b x); [exact D|]. cbn [map fst]. constructor; [|exact (IH D)].
+  intros A. apply N. exact (hrem_ids_In _ _ _ A).
+Qed.
+
+Lemma hrem_gone b l : NoDup (map fst l) -> hmem b (hrem b l) = false.
+Proof.
+  induction l as [|[x y] l IH]; cbn [hrem map fst hmem]; [auto|]. intros H. inversion H as [|? ? N D]; subst.
+  destruct (Nat.eqb_spec b x) as [E|E].
+  - subst. destruct (hmem x l) eqn:M; [|reflexivity]. exfalso. apply N.
+    clear -M. induction l as [|[a c] l IH]; cbn [hmem map fst In] in *; [discriminate|].
+    destruct (Nat.eqb_spec x a); [left; congruence|right; apply IH; exact M].
+  - cbn [hmem]. destruct (Nat.eqb_spec b x); [congruence|]. exact (IH D).
+Qed.
+
 Lemma hnew_ok h sz : heap_ok h -> heap_ok (fst (hnew h sz)).
 Proof.
-  intros [B C L]. unfold hnew. cbn [fst]. constructor; cbn [h_bad h_allocs h_frees h_live h_next].
+  intros [B C L ND]. unfold hnew. cbn [fst]. constructor; unfold ids in *; cbn [h_bad h_allocs h_frees h_live h_next map fst].
   - exact B.
   - unfold zlen in *. cbn [length]. lia.
   - intros b z [A|A]; [inversion A; lia|]. specialize (L _ _ A). lia.
+  - constructor; [|exact ND]. intros A. apply in_map_iff in A. destruct A as [[b z] [E A]]. cbn [fst] in E. subst.
+    specialize (L _ _ A). lia.
 Qed.
 
 Lemma hdel_ok h b z : heap_ok h -> In (b, z) (h_live h) -> heap_ok (hdel h b).
 Proof.
-  intros [B C L] I. unfold hdel. rewrite (hmem_In _ _ _ I). constructor; cbn [h_bad h_allocs h_frees h_live h_next].
+  intros [B C L ND] I. unfold hdel. rewrite (hmem_In _ _ _ I). constructor; unfold ids in *; cbn [h_bad h_allocs h_frees h_live h_next].
   - exact B.
   - rewrite hrem_length by exact (hmem_In _ _ _ I). lia.
   - intros x y A. apply hrem_In_inv in A. exact (L _ _ A).
+  - exact (hrem_nodup _ _ ND).
 Qed.
 
 Lemma hdel_live h b z : In (b, z) (h_live h) ->
@@ -645,7 +671,7 @@ Definition RI (pol : policy) (p : prm) (c : core) : Prop :=
   (c_up c = false -> frs c = [] /\ h_live (hp c) = []).
 
 Lemma heap0_ok : heap_ok heap0.
-Proof. constructor; cbn; auto. intros b z []. Qed.
+Proof. constructor; cbn; auto; [intros b z []|constructor]. Qed.
 
 Lemma zlen_nil_inv {A} (l : list A) : zlen l = 0 -> l = [].
 Proof. destruct l; [reflexivity|]. unfold zlen. cbn [length]. lia. Qed.
